@@ -82,6 +82,9 @@ fn run(input: RunInput) -> ScenFuture {
         let mut cfg = base_config(idle_ms, Some(ka_ms));
         cfg.shutdown_idle_timeout_ms = Some(idle_wait_ms);
         cfg.connect_timeout_ms = Some(w.param("connect_timeout_ms", 500, 3_000) as u64);
+        // a small cap on connections being established, reached by the dials below in some runs
+        let cap = w.flag("small_connecting_cap", 0.4).then(|| w.param("connecting_cap", 1, 3) as usize);
+        cfg.max_concurrent_outstanding_connecting_connections = cap;
         cfg.connectivity_check_interval_ms = Some(100);
         cfg.connection_backoff_ms = Some(100);
         cfg.max_connection_backoff_ms = Some(500);
@@ -175,7 +178,7 @@ fn run(input: RunInput) -> ScenFuture {
                 }));
             }
             // explicit dials to dead addresses
-            for k in 0..(if mode == 2 { 0 } else { r.gen_range(0..3) }) {
+            for k in 0..(if mode == 2 { 0 } else { r.gen_range(0..5) }) {
                 let n1 = n0.clone();
                 mix.push("dial-dead");
                 track("dial-dead".into(), Box::pin(async move { n1.connect(addr(200 + k as u8)).await.map(|_| ()).map_err(|e| format!("{e:#}")) }));
